@@ -468,9 +468,11 @@ def _parse_header(line):
         ret = ret[2:].strip() if ret.startswith('->') else '()'
         return name, params, ret
     # const / static / promoted:  'const NAME: TYPE = '
-    m = re.match(r'(?:const|static mut|static) (.*?): (.*) = $', line + ' ')
-    if m:
-        return m.group(1), [], m.group(2)
+    m = re.match(r'(const|static mut|static) ', line)
+    rest = line[m.end():]
+    k = find_top(rest, ': ')
+    if k != -1 and rest.rstrip().endswith('='):
+        return rest[:k], [], rest[k + 2:].rstrip()[:-1].strip()
     m = re.match(r'(?:const|static mut|static) (.*)$', line)
     return m.group(1), [], '?'
 
